@@ -45,6 +45,23 @@ def counted_table(i, cds):
         cnt[cds[j:j + 3]] = cnt.get(cds[j:j + 3], 0) + 1
     return "ATG/TAA,TAG/" + ";".join(a + ":" + ",".join("%s=%d" % (c, cnt.get(c, 0)) for c in cs) for a, cs in by_aa(i).items())
 
+def eligible_weights(i, cds):
+    """letter -> [(codon, count)] of the codons above the 10 % share (generator-side aim only)"""
+    cnt = {}
+    for j in range(0, len(cds) - 2, 3):
+        cnt[cds[j:j + 3]] = cnt.get(cds[j:j + 3], 0) + 1
+    out = {}
+    for a, cs in by_aa(i).items():
+        tot = sum(cnt.get(c, 0) for c in cs)
+        el = [(c, cnt.get(c, 0)) for c in cs if 10 * cnt.get(c, 0) > tot]
+        if el:
+            out[a] = el
+    return out
+
+def unequal_letters(i, cds):
+    """letters with at least two eligible codons of different weight: where a frequency test says something about WEIGHTING"""
+    return [a for a, el in eligible_weights(i, cds).items() if len(set(w for _, w in el)) >= 2]
+
 def biased_cds(r, i, n):
     """n codons; each amino acid gets its own skewed codon preference, some amino acids are left out"""
     d = by_aa(i)
@@ -70,8 +87,8 @@ RULE = ("opt: all 25 default tables x (every letter once; random proteins of len
         "proteins of 40..400 residues under default and count-weighted tables, replayed exactly on the model from the recovered clock "
         "seed; freqmix (statistical): one mixed protein holding every letter of the table, every letter's codon counts judged, default, "
         "re-weighted and hand-written tables; pairs (statistical): counts of adjacent codon pairs against the product of the shares; "
-        "union (statistical): per table, a protein with every letter 12 times, 40 calls; freq (statistical): 10^5 (quick) / 10^6 "
-        "(thorough) draws for one letter, 7 sigma band. Out of domain (correspondence only): negative weights (rand.Intn panics), "
+        "union (statistical): per table, a protein with every letter 12 times, 40 calls; freq (statistical): 10^6 "
+        "draws for one letter with unequally weighted eligible codons, band 8 sigma + 1. Out of domain (correspondence only): negative weights (rand.Intn panics), "
         "tables listing a triplet twice. non-trivial = protein longer than one residue; distinct by case text")
 EXHAUSTIVE = {"quick": False, "thorough": False}
 TRUSTED_BASE = ["harness op pick reads weightedrand.Chooser's unexported fields data/totals/max with reflect and reports the module "
@@ -101,9 +118,15 @@ ASSUMPTIONS = ["theorem hypothesis `WF t`: the table lists each of the 64 codons
                "seeds with (a margin of 2 microseconds is searched as well)"]
 PARTIAL = ["'over many draws each eligible codon is chosen in proportion to its weight': proved as the exact count "
            "(pick_proportional: exactly w(c) of the max equally likely draw values select c, for every order the unstable sort may "
-           "leave). The picking algorithm is tied to the code pointwise (pick cases: same (r, item) pairs as weightedrand; replay cases: "
-           "whole Optimize outputs reproduced by the model from the recovered seed); that the real draws are uniform and independent "
-           "is an assumption about math/rand, supported by the 7-sigma frequency and pair tests only"]
+           "leave). Tie to the code: (a) replay cases reproduce whole Optimize outputs on the model from the recovered seed (classes "
+           "replay/*/seed-found) - this is the only POINTWISE tie of /repo's picking; (b) pick-lib cases tie the model to the weightedrand "
+           "library the harness links, not to /repo's use of it. If Optimize draws from a generator that cannot be recovered (class "
+           "replay/*/OWN-GENERATOR-NO-POINTWISE-TIE-statistics-only in the evidence) there is NO pointwise tie and proportionality rests on "
+           "the statistical cases alone: freq = 10^6 draws on one letter with unequally weighted eligible codons (band 8 sigma + 1 <= 0.4 "
+           "percentage points), freqmix = 5*10^4 (quick) / 2*10^5 (thorough) draws per letter over all letters (<= 1.8 / 0.9 points), "
+           "pairs = 5*10^4 / 2*10^5 adjacent pairs. A bias smaller than that resolution is then not detectable. That the real draws are "
+           "uniform and independent is an assumption about math/rand in every mode"]
+MIN_JUDGED_FRACTION = 0.9
 
 def cases(seed, tier):
     r = rng(seed, "C07")
@@ -171,7 +194,9 @@ def cases(seed, tier):
             cds += "ATA" * 30 + "ATG" * natg
             enc = encodable_letters(i, cds)
             body = "".join(a for a in enc if a != "M") or "M"
-            yield ["union", "rw:%d:%s" % (i, cds), "M" + randword(r, body, 20) + "MM", "40"]
+            # judged run by run (threshold / error at position 0 like everywhere else); NOT a union case: a letter that
+            # occurs once would get too few picks for "every eligible codon is seen"
+            yield ["opt", "rw:%d:%s" % (i, cds), "M" + randword(r, body, 20) + "MM", "10"]
             yield ["rp", str(r.randint(3, 40)), str(r.randrange(0, 10 ** 6)), "rw:%d:%s" % (i, cds)]
     # a coding sequence in lower / mixed case re-weights like its upper case
     yield ["opt", "rw:11:atgAAAaaaAAGtaa", "MK*", "5"]
@@ -228,16 +253,20 @@ def cases(seed, tier):
     for _ in range(5 if not thorough else 40):
         i = r.choice(IDS)
         yield ["rp", str(loglen(r, 3, 300)), str(r.randrange(0, 10 ** 6)), "rw:%d:%s" % (i, biased_cds(r, i, r.randint(100, 600)))]
-    # ---- frequencies (statistical)
-    per, calls = (2000, 50) if not thorough else (10000, 100)
+    # ---- frequencies (statistical): 10^6 draws per case, so that the band (8 sigma + 1) is at most 0.4 percentage points wide
+    per, calls = 10000, 100
     yield ["freq", "id:1", "L", str(per), str(calls)]
     yield ["freq", "txt:" + above, "L", str(per), str(calls)]
-    for _ in range(2 if not thorough else 12):
+    nfreq = 0
+    for _ in range(200):
+        if nfreq >= (4 if not thorough else 24):
+            break
         i = r.choice(IDS)
-        cds = biased_cds(r, i, 400)
-        enc = encodable_letters(i, cds)
-        if enc:
-            yield ["freq", "rw:%d:%s" % (i, cds), r.choice(enc), str(per), str(calls)]
+        cds = biased_cds(r, i, r.randint(300, 1500))
+        ul = unequal_letters(i, cds)
+        if ul:                                   # a letter whose eligible codons have DIFFERENT weights
+            nfreq += 1
+            yield ["freq", "rw:%d:%s" % (i, cds), r.choice(ul), str(per), str(calls)]
     # ---- the weighted pick itself: weightedrand.NewChooser + Pick against `newChooser` / `pick`, pointwise
     def seeds(k):
         return ",".join(str(r.randrange(-2 ** 62, 2 ** 62)) for _ in range(k))
@@ -265,8 +294,21 @@ def cases(seed, tier):
         if enc:
             yield ["replay", spec, randword(r, enc, r.randint(40, 400))]
     yield ["replay", "id:27", "MKV*"]
+    # usage totals as in published tables (10^4 .. 10^7) and near 10^12: the chooser must not rescale or smooth them
+    for _ in range(4 if not thorough else 40):
+        i = r.choice(IDS)
+        cds = biased_cds(r, i, r.randint(200, 900))
+        k = r.choice([10 ** 4, 10 ** 5, 10 ** 6, 10 ** 7, 10 ** 10])
+        tt = counted_table(i, cds)
+        head, body = tt.rsplit("/", 1)
+        body = ";".join(e.split(":")[0] + ":" + ",".join("%s=%d" % (cw.split("=")[0], int(cw.split("=")[1]) * k + (r.randrange(0, k) if int(cw.split("=")[1]) else 0))
+                                                        for cw in e.split(":")[1].split(",")) for e in body.split(";"))
+        enc = encodable_letters(i, cds)
+        if enc:
+            yield ["replay", "txt:" + head + "/" + body, randword(r, enc, r.randint(60, 300))]
+    yield ["replay", "txt:" + big, randword(r, "".join(sorted(by_aa(1))), 200)]
     # ---- frequencies over a MIXED protein: every letter of the table judged in one case (statistical)
-    reps, calls = (40, 100) if not thorough else (100, 250)
+    reps, calls = (100, 500) if not thorough else (100, 2000)      # 5*10^4 / 2*10^5 draws per letter
     mixed = []
     for _ in range(3 if not thorough else 12):
         i = r.choice(IDS)
@@ -314,9 +356,15 @@ LEVEL_TEXT = ("For every table that lists each of the 64 codons once with non-ne
               "and alphabet, round trip under the 22 default tables that have a '*' entry, error under codes 27/28/31 (no '*' entry). "
               "Because Optimize reseeds from the clock, real outputs are compared as members of the model's possible-output set and every "
               "real output is judged for length, round trip (by the library's Translate and by the NCBI spec) and threshold; eligible sets "
-              "and proportionality are supported by statistical tests (union over 480 picks per letter; 10^5..10^6 draws, 7 sigma).")
+              "and proportionality are supported by statistical tests (union over 480 picks per letter; 10^6 draws per frequency case, band 8 sigma + 1).")
 LEVEL_NOTE = ("Trusted: Lean kernel; harness; exact-vs-float share test (assumed, cross-checked numerically each run); uniformity of "
-              "math/rand (assumed); Go map / sort.Slice semantics as modelled.")
+              "math/rand (assumed); Go map / sort.Slice semantics as modelled. "
+              "False-alarm probability of the statistical cases on a correct implementation, per run, all cases together: union cases give "
+              "every letter >= 300 picks (480 in the per-table cases), an eligible codon has share > 1/10, so a codon is missed with "
+              "probability < 0.9^300 = 1.9e-14, times < 2*10^4 (letter, codon) pairs per run: < 4e-10; every frequency / pair count is a "
+              "binomial with standard deviation >= 20 judged with the band 8 sigma + 1: by Bernstein's inequality each band fails with "
+              "probability < 2*exp(-64/(2+16/60)) = 1.1e-12, times < 10^4 bands per run (thorough): < 2e-8. Total < 10^-6 per run. "
+              "(Position-0 cases are opt cases, judged run by run; they carry no union demand.)")
 
 HARNESS_BIN = "run-codon"
 EXTRACT_BINS = ["extract-codon"]
